@@ -551,6 +551,7 @@ impl<'a> Gen<'a> {
                 }
                 Some(Expr::BlockE(self.block(ty, d)))
             }
+            9 | 10 => self.method_call(ty, d),
             8 => {
                 // `e?` in a function returning an Option
                 if !matches!(self.ret, Some(Ty::Opt(_))) || matches!(ty, Ty::Verdict(..)) || *ty == Ty::Unit {
@@ -565,6 +566,72 @@ impl<'a> Gen<'a> {
             }
             _ => None,
         }
+    }
+
+    /// a call of a built-in method whose result has type `ty`, on a variable
+    /// (the checker resolves the method from the receiver's type, so the
+    /// receiver must be something whose type is known: a variable)
+    fn method_call(&mut self, ty: &Ty, d: u32) -> Option<Expr> {
+        let vars = self.all_vars();
+        let lists: Vec<(usize, Ty)> = vars.iter().filter_map(|(x, t)| if let Ty::List(e) = t { Some((*x, (**e).clone())) } else { None }).collect();
+        let strs: Vec<usize> = vars.iter().filter(|(_, t)| *t == Ty::Str).map(|(x, _)| *x).collect();
+        let mut cands: Vec<Expr> = Vec::new();
+        let u64t = Ty::Int(3);
+        for (x, et) in &lists {
+            let recv = || Box::new(Expr::Var(*x));
+            match ty {
+                Ty::Int(3) => cands.push(Expr::MCall(recv(), 0, vec![])),
+                Ty::Bool => {
+                    cands.push(Expr::MCall(recv(), 4, vec![]));
+                    if !matches!(et, Ty::Named(_) | Ty::List(_)) {
+                        let a = self.expr(et, true, d + 1);
+                        cands.push(Expr::MCall(recv(), 3, vec![a]));
+                    }
+                }
+                Ty::Opt(inner) if **inner == *et => {
+                    let i = self.expr(&u64t, true, d + 1);
+                    cands.push(Expr::MCall(recv(), 2, vec![i]));
+                }
+                Ty::Opt(inner) if **inner == u64t && !matches!(et, Ty::Named(_) | Ty::List(_)) => {
+                    let a = self.expr(et, true, d + 1);
+                    cands.push(Expr::MCall(recv(), 13, vec![a]));
+                }
+                Ty::List(inner) if **inner == *et => {
+                    let other = self.expr(ty, true, d + 1);
+                    cands.push(Expr::MCall(recv(), 12, vec![other]));
+                }
+                Ty::Unit => {
+                    let a = self.expr(et, true, d + 1);
+                    cands.push(Expr::MCall(recv(), 1, vec![a]));
+                }
+                _ => {}
+            }
+        }
+        for x in &strs {
+            let recv = || Box::new(Expr::Var(*x));
+            match ty {
+                Ty::Bool => {
+                    let a = self.expr(&Ty::Str, true, d + 1);
+                    cands.push(Expr::MCall(recv(), if self.p.chance(1, 2) { 3 } else { 6 }, vec![a]));
+                }
+                Ty::Str => {
+                    cands.push(Expr::MCall(recv(), 5, vec![]));
+                    cands.push(Expr::MCall(recv(), 11, vec![]));
+                    let n = self.expr(&u64t, true, d + 1);
+                    cands.push(Expr::MCall(recv(), 7, vec![n]));
+                }
+                Ty::Opt(inner) if **inner == Ty::Str => {
+                    let a = self.expr(&Ty::Str, true, d + 1);
+                    cands.push(Expr::MCall(recv(), 10, vec![a]));
+                }
+                Ty::List(inner) if **inner == Ty::Str => {
+                    let a = self.expr(&Ty::Str, true, d + 1);
+                    cands.push(Expr::MCall(recv(), 9, vec![a]));
+                }
+                _ => {}
+            }
+        }
+        if cands.is_empty() { None } else { Some(self.p.pick(&cands).clone()) }
     }
 
     /// something printable inside an f-string: a variable or a literal of a scalar type
